@@ -86,6 +86,7 @@ class CpuTimeExceeded(BaseException):
 
 CPU_LIMIT_S = 20.0
 _HANDLER = []
+_CPU_HITS = [0]
 
 
 def _cpu_guard(on):
@@ -99,7 +100,10 @@ def _cpu_guard(on):
             raise CpuTimeExceeded()
         signal.signal(signal.SIGVTALRM, handler)
         _HANDLER.append(handler)
-    signal.setitimer(signal.ITIMER_VIRTUAL, CPU_LIMIT_S if on else 0)
+    # (once a process has seen three such loads the evidence is in: the rest of its
+    # work goes on with a limit of 2 s, so that a tier still ends)
+    limit = CPU_LIMIT_S if _CPU_HITS[0] < 3 else 2.0
+    signal.setitimer(signal.ITIMER_VIRTUAL, limit if on else 0)
 
 
 def load(d, text):
@@ -116,8 +120,9 @@ def load(d, text):
                 _cpu_guard(False)
         return ("module", p.lexer.stats["tokens"], None, "")
     except CpuTimeExceeded:
+        _CPU_HITS[0] += 1
         return ("cpu", p.lexer.stats["tokens"], f"C06/{d}/cpu-time",
-                f"still computing after {CPU_LIMIT_S:.0f} s of CPU time on a text of "
+                f"still computing after {CPU_LIMIT_S if _CPU_HITS[0] <= 3 else 2.0:.0f} s of CPU time on a text of "
                 f"{len(text)} characters: text={text!r}")
     except BudgetExceeded:
         return ("spins", p.lexer.stats["tokens"], f"C06/{d}/non-termination",
@@ -191,6 +196,9 @@ def tokens_in_context(acc):
     from props import c17
     toks = sorted({t for t in c17.CURATED if t and "\n" not in t})
     for t in toks:
+        if acc.expired():
+            acc.notes["budget_exhausted"] = 1
+            return
         for ctx in CONTEXTS:
             text = ctx.replace("{t}", t)
             for d in PARSERS:
